@@ -23,6 +23,9 @@ class HistoricallyTimedOperation(AbstractDenseTimeOnlineOperation):
         begin = self.begin
         end = self.end
 
+        # nothing has been received before this chunk
+        first_chunk = self.residual_start == float("inf")
+
         if sample:
             # update when the residuals start in this iteration
             self.residual_start = sample[-1][0]
@@ -35,7 +38,7 @@ class HistoricallyTimedOperation(AbstractDenseTimeOnlineOperation):
 
         i = 1
         while len(sample) >= i:
-            if i == 1 and sample[0][0] == 0 and begin > 0:
+            if i == 1 and first_chunk and sample[0][0] == 0 and begin > 0:
                 out.append((0, sample[0][0] + begin, float('inf')))
 
             if i == len(sample):
